@@ -5,6 +5,7 @@
 //! trusted: env: Peer skeleton {pending_read_buffer, pending_read_is_header}; PeerHandleError empty struct (as in the source)
 //! trusted: assume_specification for Vec::capacity (some value >= len; std definition)
 //! trusted: R15 (deep slice): do_attempt_write_data: the statements from taking the front of pending_outbound_buffer to the end of the loop body (send_data, offset bookkeeping, pop) verbatim as a function; the queue is a stub over a Vec with the std VecDeque contracts of front / pop_front; SocketDescriptor::send_data is external_body with its documented contract (accepts a prefix) and a ghost log; `&buf[off..]` is the external_body wrapper vec_from (R8); the capacity-shrinking statements (memory only) are dropped (R15); gossip backfill and message generation before these statements are dropped and not claimed
+//! trusted: R15 (deep slice): do_read_event: the block that copies incoming bytes into pending_read_buffer verbatim as a function of (the two Peer fields, data, read_pos); `buf[a..a+n].copy_from_slice(&data[b..b+n])` is the external_body wrapper copy_range (R8); assume_specification for core::cmp::min / max
 //! assume: usize is at least 32 bits (vstd's usize model)
 #![feature(allocator_api)]
 use vstd::prelude::*;
@@ -130,6 +131,46 @@ pub open spec fn unsent(p: WritePeer) -> Seq<u8> { flat(p.pending_outbound_buffe
     peer.pending_outbound_buffer_first_msg_offset += data_sent;
 //@with
     peer.pending_outbound_buffer_first_msg_offset += 0;
+//@end
+
+// ---- receiving: the incoming byte stream is copied into the frame buffer in order, whatever the fragmentation (deep R15 slice of do_read_event) ----
+use vstd::std_specs::cmp::*;
+use core::cmp;
+pub assume_specification<T: core::cmp::Ord>[core::cmp::min::<T>](a: T, b: T) -> (r: T)
+    ensures T::obeys_cmp_spec() ==> r == (if b.cmp_spec(&a) == core::cmp::Ordering::Less { b } else { a });
+pub assume_specification<T: core::cmp::Ord>[core::cmp::max::<T>](a: T, b: T) -> (r: T)
+    ensures T::obeys_cmp_spec() ==> r == (if b.cmp_spec(&a) == core::cmp::Ordering::Less { a } else { b });
+#[verifier::external_body]
+pub fn copy_range(dst: &mut Vec<u8>, dst_from: usize, src: &[u8], src_from: usize, n: usize)
+    requires dst_from + n <= old(dst)@.len(), src_from + n <= src@.len()
+    ensures final(dst)@ == old(dst)@.take(dst_from as int) + src@.subrange(src_from as int, src_from + n) + old(dst)@.skip(dst_from + n)
+{ unimplemented!() }
+pub struct ReadPeer { pub pending_read_buffer: Vec<u8>, pub pending_read_buffer_pos: usize }
+//@extract lightning/src/ln/peer_handler.rs :: impl PeerManager :: fn do_read_event
+//@slice R15
+    assert!(peer.pending_read_buffer.len() > peer.pending_read_buffer_pos); { $copy:any } if peer.pending_read_buffer_pos == peer.pending_read_buffer.len() {
+//@with
+    fn copy_incoming_bytes(peer: &mut ReadPeer, data: &[u8], read_pos_: usize) -> usize {
+        let mut read_pos = read_pos_;
+        { $copy }
+        read_pos
+    }
+//@rw R8
+    peer.pending_read_buffer [peer.pending_read_buffer_pos..peer.pending_read_buffer_pos + data_to_copy] .copy_from_slice(&data[read_pos..read_pos + data_to_copy]);
+//@with
+    copy_range(&mut peer.pending_read_buffer, peer.pending_read_buffer_pos, data, read_pos, data_to_copy);
+//@ret r
+//@requires
+    old(peer).pending_read_buffer@.len() > old(peer).pending_read_buffer_pos, read_pos_ <= data@.len(),
+//@ensures P C15 incoming-bytes-are-appended-to-the-frame-in-order-none-skipped-or-repeated-up-to-the-end-of-the-frame-or-of-the-data
+    ({ let n = if old(peer).pending_read_buffer@.len() - old(peer).pending_read_buffer_pos <= data@.len() - read_pos_ { old(peer).pending_read_buffer@.len() - old(peer).pending_read_buffer_pos } else { data@.len() - read_pos_ };
+       r == read_pos_ + n && final(peer).pending_read_buffer_pos == old(peer).pending_read_buffer_pos + n
+       && final(peer).pending_read_buffer@ == old(peer).pending_read_buffer@.take(old(peer).pending_read_buffer_pos as int) + data@.subrange(read_pos_ as int, read_pos_ + n)
+              + old(peer).pending_read_buffer@.skip(old(peer).pending_read_buffer_pos + n) }),
+//@mutant read_position_not_advanced
+    read_pos += data_to_copy;
+//@with
+    read_pos += 0;
 //@end
 }
 fn main() {}
